@@ -149,6 +149,78 @@ def run_instance(S: dict, vname: list, nname: list) -> dict:
     return {"pre": pre, "post": post, "exc": exc, "mod": mod}
 
 
+def run_composite(parts: list) -> dict:
+    """One model made of several enumerated instances: parts[0] (top = graph) is the main graph, the others
+    (top = function) are functions of the same model (Names.tla, FModel). The pass runs once; every top is
+    observed separately."""
+    bs = [build(S, vn, nn) for S, vn, nn in parts]
+    pres = [observe(b) for b in bs]
+    for k, b in enumerate(bs[1:], 1):
+        b.top.name = f"f{k}"
+    model = ir.Model(bs[0].top, ir_version=10, functions=[b.top for b in bs[1:]])
+    for b in bs:
+        b.model = model
+    for (S, vn, nn), pre in zip(parts, pres):
+        if pre["vname"] != list(vn) or pre["nname"] != list(nn):
+            return {"error": "could not build a part of the composite"}
+    pres = [observe(b) for b in bs]   # the signature now covers the common model
+    out, exc, mod = "ok", None, None
+    try:
+        res = naming.NameFixPass()(model)
+        mod = bool(res.modified)
+    except Exception as e:  # noqa: BLE001
+        out, exc = "raise", f"{type(e).__name__}: {e}"
+    posts = [observe(b) for b in bs]
+    return {"pres": pres, "posts": posts, "out": out, "exc": exc, "mod": mod}
+
+
+def _composite_chunk(items):
+    res = []
+    for parts, preds in items:
+        o = run_composite(parts)
+        if "error" in o:
+            res.append({"error": o["error"]})
+            continue
+        # FModel: tops are independent; the run stops at the first top predicted to raise
+        stop = next((k for k, p in enumerate(preds) if p["out"] == "raise"), None)
+        raised_at = None
+        if o["out"] == "raise":
+            raised_at = stop if stop is not None else next(
+                (k for k, (post, pred) in enumerate(zip(o["posts"], preds))
+                 if post["vname"] != pred["vname"] or post["nname"] != pred["nname"]), 0)
+        tops = []
+        for k, (pre, post, pred) in enumerate(zip(o["pres"], o["posts"], preds)):
+            post = dict(post)
+            if stop is not None and k > stop:
+                want = {"out": "ok", "vname": pre["vname"], "nname": pre["nname"], "keys": pre["keys"]}
+                post["out"] = "ok"
+            else:
+                want = pred
+                post["out"] = "raise" if k == raised_at else "ok"
+            conf = (post["vname"] == want["vname"] and post["nname"] == want["nname"] and post["keys"] == want["keys"]
+                    and (o["out"] == "raise") == (stop is not None))
+            tops.append({"pre": pre, "post": post, "conf": conf, "untouched_expected": stop is not None and k > stop})
+        want_mod = None if stop is not None else any(p["mod"] for p in preds)
+        res.append({"tops": tops, "exc": o["exc"], "mod": o["mod"], "want_mod": want_mod})
+    return res
+
+
+def replay_composites(items: list, nproc: int, pool=None) -> list:
+    step = max(1, len(items) // (nproc * 4) + 1)
+    chunks = [items[i:i + step] for i in range(0, len(items), step)]
+    res = []
+    own = pool is None
+    if own:
+        pool = mp.get_context("fork").Pool(nproc)
+    try:
+        for r in pool.imap(_composite_chunk, chunks):
+            res += r
+    finally:
+        if own:
+            pool.terminate()
+    return res
+
+
 # ---- replay of a TLC output file ------------------------------------------------------------
 def load_tlc_output(path: str):
     structs, runs = {}, []
